@@ -247,4 +247,17 @@ theorem palette_xterm : Gen.wPalette = (List.range 16).map (fun i => (2^32 + i,
 theorem paletteColor_rgb (p : Pal) (c : Nat) (h : isRGB c = true) : paletteColor p c = ((c % 2^24 : Nat) : Int) := by
   simp [paletteColor, h]
 
+/-! ### callbacks become events: they wait for room, they are not dropped -/
+
+/-- **post_event_waits_tree** (kernel verdict on the regenerated facts `Gen.wSelects`: per *wScreen method the number of `select`
+statements and how many of them have a `default` clause).  `postEvent` — the one place where a JavaScript callback hands its event
+to the application (wscreen.go) — is a single `select` WITHOUT a `default`: with the event queue full the callback waits for room
+(or for Fini); it never discards the event.  "Key, mouse, paste and focus callbacks from JavaScript become the corresponding
+events": none is lost, however many arrive in one JS task. -/
+theorem post_event_waits_tree : Gen.wSelects.lookup "postEvent" = some (1, 0) := by decide
+
+/-- the callbacks themselves contain no `select`: whatever they post goes through `postEvent` -/
+theorem callbacks_have_no_select_tree :
+    (["onKeyEvent", "onMouseEvent", "onPaste", "onFocus"].all fun n => (Gen.wSelects.lookup n).isNone) = true := by decide
+
 end Tcell.Props.C19
